@@ -64,7 +64,7 @@ def t2(chk, wc, tier, seed):
     ranges = sorted(set(re.findall(r"range ([A-Za-z_.\[\]0-9]+)", fn)))
     # 2. fields of the Task literal in the Result branch
     res = fn[fn.index("shuffleOpName :="):]
-    res = res[:res.index("return")]
+    res = res[:res.index("// Pipeline slices and create a task")]
     fields = sorted(set(re.findall(r"^\s*([A-Z][A-Za-z]+):", res, re.M)))
     # 3. the partitioner handed to a shuffle dependency
     m = re.search(r"depPart := partitioner\{\s*([^}]*)\}", fn, re.S)
